@@ -33,6 +33,7 @@ import (
 	"wa-lang.org/wa/internal/wazero"
 	"wa-lang.org/wa/internal/zz_verif/astdump"
 	"wa-lang.org/wa/internal/zz_verif/vh"
+	"wa-lang.org/wa/internal/zz_verif/vhx"
 )
 
 var (
@@ -151,7 +152,7 @@ func optOf(kind string) astdump.Opt {
 }
 
 func main() {
-	vh.Loop(func(f []string, line string) string {
+	vhx.Loop(func(f []string, line string) string {
 		if len(f) < 3 {
 			return "bad-op"
 		}
